@@ -417,7 +417,7 @@ def run(chk):
                        "stream files contain whole events only",
                        "streams of a trace are independent (the ring is reset per stream); traces with 1 or 2 streams are exercised",
                        "a stream without events is skipped by both modes (/repo 4875105); corpus/C16/02 is the regression case"]
-    chk.translate_and_prove(["cmp_winsort"])
+    chk.translate_and_prove(["cmp_winsort", "winsort"])
 
     build = common.repo_build("hook")
     oracle = None
